@@ -33,6 +33,21 @@ type c07Case struct {
 	prof *lib.ProfileDoc
 }
 
+// c07RawText: cases given as profile text (shapes the block-style printer would blow up), by case name
+var c07RawText = map[string]string{}
+
+func (c c07Case) Text() string {
+	if t, ok := c07RawText[c.name]; ok {
+		return t
+	}
+	return c.prof.Text()
+}
+
+func c07Raw(name, text string) c07Case {
+	c07RawText[name] = text
+	return c07Case{name, nil}
+}
+
 func c07Wrap(name string, body lib.Expr) *lib.ProfileDoc {
 	return &lib.ProfileDoc{Name: "c07 " + name, Prefixes: [][2]string{{"ex", lib.EX}}, Violation: []string{"v"},
 		Validations: []lib.Validation{{Name: "v", TargetClass: "ex.T", Message: "m", Body: body}}}
@@ -281,6 +296,15 @@ func c07Cases(ctx *lib.Ctx) []c07Case {
 		q.Validations[0].Message = msg
 		cases = append(cases, c07Case{fmt.Sprintf("messages/nested-%d", i), q})
 	}
+	// connective nesting far deeper than anything else here (negation is cheap for the engine): flow-style text
+	for _, d := range []int{100, 101, 1000, 3000, 4095, 4096, 4097, 5000, 8000} {
+		body := strings.Repeat("{not: ", d) + "{propertyConstraints: {ex.leaf: {minCount: 1}}}" + strings.Repeat("}", d)
+		cases = append(cases, c07Raw(fmt.Sprintf("scale/not-chain/%d", d),
+			"profile: c07 deep negation\nprefixes:\n  ex: http://ex.org/\nviolation:\n  - v\nvalidations:\n  v:\n    targetClass: ex.T\n    message: m\n    not: "+body+"\n"))
+		andBody := strings.Repeat("{and: [", d/10) + "{propertyConstraints: {ex.leaf: {minCount: 1}}}" + strings.Repeat("]}", d/10)
+		cases = append(cases, c07Raw(fmt.Sprintf("scale/and-chain/%d", d/10),
+			"profile: c07 deep conjunction\nprefixes:\n  ex: http://ex.org/\nviolation:\n  - v\nvalidations:\n  v:\n    targetClass: ex.T\n    message: m\n    and: ["+andBody+"]\n"))
+	}
 	// profile names that sanitise to the same package name
 	for _, nm := range []string{"my profile", "my-profile", "MY_PROFILE", "my.profile", "my/profile/1.0", "1", "profile", "ünïcode name", "a  b", "-", "report", "data", "input", "violation"} {
 		p := c07Wrap("x", leaf)
@@ -293,7 +317,7 @@ func c07Cases(ctx *lib.Ctx) []c07Case {
 // C07: every well-formed declarative profile compiles (and the compiled policy can be evaluated).
 func c07(tier string) {
 	ctx := lib.NewCtx("C07", tier)
-	ctx.Rule = "complete pairwise matrix: every documented constraint kind (all atoms, nested, atLeast, atMost, combinations in one mapping) x 16 path-shape classes x {plain, under not} x {top level, inside nested, inside atLeast over an alternative path, inside or/and}; negation directly above every connective and pairs of connectives; scaling sweeps (1..N quantified constraints flat / inside nested / two levels, nesting depth 1..6 (quick) / 1..8 (thorough) x width 1..3, 1..N validations over three levels, and/or width 2..6 x depth 1..3, profile names sanitising to the same package); message templates (repeated / many / colliding / built-in-prefix placeholders, format verbs, control characters); distributions of validations over the three levels (a validation under two or three levels, levels listing only already-listed validations, empty / missing levels, duplicates); every fourth profile is compiled right after a profile the translator must reject; plus seeded random formula families; every profile must compile AND evaluate on a small graph; " +
+	ctx.Rule = "complete pairwise matrix: every documented constraint kind (all atoms, nested, atLeast, atMost, combinations in one mapping) x 16 path-shape classes x {plain, under not} x {top level, inside nested, inside atLeast over an alternative path, inside or/and}; negation directly above every connective and pairs of connectives; scaling sweeps (1..N quantified constraints flat / inside nested / two levels, nesting depth 1..6 (quick) / 1..8 (thorough) x width 1..3, chains of 100-8000 negations and 10-800 single-operand conjunctions, 1..N validations over three levels, and/or width 2..6 x depth 1..3, profile names sanitising to the same package); message templates (repeated / many / colliding / built-in-prefix placeholders, format verbs, control characters); distributions of validations over the three levels (a validation under two or three levels, levels listing only already-listed validations, empty / missing levels, duplicates); every fourth profile is compiled right after a profile the translator must reject; plus seeded random formula families; every profile must compile AND evaluate on a small graph; " +
 		"non-trivial & distinct = distinct profile text"
 	ctx.Assumptions = []string{"no embedded Rego; only documented constraints; names over [A-Za-z0-9-]; branch cross-products bounded (<= 6^3 leaves per validation)", "nesting depth bounded at 6 / 8: deeper profiles do compile (depth 10 was compiled by hand) but OPA needs ~3.5x longer per level, minutes at depth 10 - a cost, not a rejection"}
 	nRandom := ctx.N(100, 3000)
@@ -344,9 +368,9 @@ func c07(tier string) {
 		}
 	}
 	ctx.ForEach(len(cases), func(i int) {
-		judge(cases[i].name, cases[i].prof.Text())
+		judge(cases[i].name, cases[i].Text())
 		if i%400 == 0 {
-			ctx.Sample(map[string]any{"case": cases[i].name, "profile": clip(cases[i].prof.Text(), 600)})
+			ctx.Sample(map[string]any{"case": cases[i].name, "profile": clip(cases[i].Text(), 600)})
 		}
 	})
 	ctx.ForEach(nRandom, func(i int) {
